@@ -3,6 +3,7 @@ import Oracle.C01
 import Oracle.C08
 import MobiusModel.Transfers
 import MobiusModel.UploadHistory
+import MobiusModel.UploadDeclared
 /-! Oracle handlers for C09 (model functions exposed on the line protocol).
 
   The state of the two names is passed as lengths (`-` = absent); contents are zero-filled on this
@@ -74,6 +75,14 @@ def c09Own : List (String × Handler) := [
           let st := uploadAttempt (num ref) (num fc) i d r acc.1 (num c)
           (st, acc.2 ++ [stStr st])
         " ; ".intercalate (cuts.foldl step ({}, [])).2
+      | _ => "bad-op"
+    | _ => "bad-op"),
+  -- updeclared <ref> <fc> <info 11 tokens> <inc> <declared data size> <bytes sent> → the names after an attempt that
+  --   announces the declared size (any 32-bit number), delivers the whole header and that many data bytes, and dies
+  ("updeclared", fun (a : List String) => match a with
+    | ref :: fc :: rest => match infoOfArgs rest with
+      | some (i, [inc, ds, send]) =>
+        stStr (uploadDeclared (num ref) (num fc) i (stOfArgs "-" inc) (num ds) (List.replicate (num send) 0))
       | _ => "bad-op"
     | _ => "bad-op"),
   -- uphist <ref> <fc> <info 11 tokens> <data length> <rsrc length> <events…> → what every request showed
